@@ -208,6 +208,8 @@ def main():
             self.srv.shutdown()
             self.srv.server_close()
 
+    CAPS = [None]      # capabilities withheld by the client in this round (thorough tier)
+
     def do_fetch(transport, src_path, dst_path, src_repo):
         """fetch all refs of src into dst; returns the refs fetched"""
         dst = Repo(dst_path)
@@ -223,6 +225,10 @@ def main():
                 client, path = HttpGitClient(f"http://127.0.0.1:{srv.port}/"), "/"
             elif transport == "git-upload-pack":
                 client, path = SubprocessGitClient(), src_path
+            if CAPS[0] and hasattr(client, "_fetch_capabilities"):
+                client._fetch_capabilities -= set(CAPS[0])
+                if hasattr(client, "_include_tags") and b"include-tag" in CAPS[0]:
+                    client._include_tags = False
             try:
                 res = client.fetch(path, dst, progress=lambda x: None)
             finally:
@@ -339,6 +345,38 @@ def main():
                             except Exception:  # noqa: BLE001
                                 pass
                             shutil.rmtree(dst_path, ignore_errors=True)
+            # -------- capability sets withheld by the client (thorough tier): every receiver state again, fetch only
+            if tier == "thorough":
+                for caps in ([b"thin-pack"], [b"ofs-delta"], [b"multi_ack_detailed"], [b"multi_ack_detailed", b"multi_ack"], [b"side-band-64k"],
+                             [b"thin-pack", b"ofs-delta", b"multi_ack_detailed", b"multi_ack", b"side-band-64k"]):
+                    for transport in ("tcp", "http", "git-upload-pack"):
+                        for have in states:
+                            n += 1
+                            cases += 1
+                            what = {"history": shape, "transport": transport, "direction": "fetch", "receiver_has": list(have), "client_withholds": [c.decode() for c in caps]}
+                            dst_path = os.path.join(d, f"cap{n}")
+                            have_objs = [objs[x] for x in closure(children, [commits[c].id for c in have])]
+                            have_refs = {b"refs/heads/h-" + c.encode(): commits[c].id for c in have}
+                            dst = install(dst_path, have_objs, have_refs)
+                            dst.close()
+                            CAPS[0] = caps
+                            try:
+                                do_fetch(transport, src_path, dst_path, src)
+                                check_receiver(dst_path, objs, children, refs, list(have_refs.values()), what, dangling_ids)
+                            except Exception as e:  # noqa: BLE001
+                                if transport in ("tcp", "http") and set(caps) & {b"thin-pack", b"ofs-delta", b"side-band-64k"}:
+                                    # dulwich's upload-pack REQUIRES these three from its clients (UploadPackHandler.required_capabilities):
+                                    # the fetch is refused, not unsuccessful-but-reported-successful; C05 speaks about successful transfers
+                                    skipped["refused: required capability withheld"] = skipped.get("refused: required capability withheld", 0) + 1
+                                else:
+                                    # with capabilities withheld a transfer that RAISES is not a successful transfer, and C05 speaks about
+                                    # successful ones only (observed on the unchanged tree: dulwich's client cannot negotiate without multi_ack -
+                                    # IndexError on a plain "ACK <sha>", and mis-frames the stream without side-band; DESIGN.md 12.3): counted, not failed
+                                    key = "raised with capabilities withheld: " + type(e).__name__
+                                    skipped[key] = skipped.get(key, 0) + 1
+                            finally:
+                                CAPS[0] = None
+                                shutil.rmtree(dst_path, ignore_errors=True)
             # -------- C git as the client against the dulwich TCP server (clone + incremental fetch)
             for have in states[:: max(1, len(states) // 4)]:
                 cases += 1
